@@ -97,7 +97,7 @@ func (v *c14View) entryOf(fn *ssa.Function) []c14Pt {
 	var out []c14Pt
 	for _, cx := range v.byFn[fn] {
 		if cx.parent == nil {
-			out = append(out, c14Pt{cx, fn.Blocks[0], 0})
+			out = append(out, c14Pt{ctx: cx, b: fn.Blocks[0]})
 		}
 	}
 	return out
@@ -377,9 +377,11 @@ func c14R3Updater(c *Ctx, u *c14Upd, getGen *ssa.Function) {
 		c.Check(R, pn+"|publishes-only-on-success", P.Pos(), okPub && nPub > 0, ifelse(okPub && nPub > 0, "the shared variables are set only on the nil-error edge of the fetch", "the fetched state is not handed on, or can be handed on from a failed fetch"))
 	}
 	// the old index descriptor, as update sees it: a pointer to a copy of the fetched descriptor, or the value
-	isOldDescPtr := func(v ssa.Value) bool {
+	var isOldDescD func(v ssa.Value, depth int) bool
+	// a pointer to (a copy of) the fetched descriptor
+	isOldDescPtrD := func(v ssa.Value, depth int) bool {
 		ls := V.LeavesShallow(v)
-		if len(ls) == 0 {
+		if len(ls) == 0 || depth > 4 {
 			return false
 		}
 		for _, l := range ls {
@@ -392,29 +394,32 @@ func c14R3Updater(c *Ctx, u *c14Upd, getGen *ssa.Function) {
 				return false
 			}
 			for _, st := range sts {
-				if !u.only(st.Val, fDesc) {
+				if !isOldDescD(st.Val, depth+1) {
 					return false
 				}
 			}
 		}
 		return true
 	}
-	isOldDesc := func(v ssa.Value) bool {
+	// (a copy of) the fetched descriptor
+	isOldDescD = func(v ssa.Value, depth int) bool {
 		if u.only(v, fDesc) {
 			return true
 		}
 		ls := V.LeavesShallow(v)
-		if len(ls) == 0 {
+		if len(ls) == 0 || depth > 4 {
 			return false
 		}
 		for _, l := range ls {
 			d, isDeref := l.(*ssa.UnOp)
-			if !isDeref || d.Op != token.MUL || !isOldDescPtr(d.X) {
+			if !isDeref || d.Op != token.MUL || !isOldDescPtrD(d.X, depth+1) {
 				return false
 			}
 		}
 		return true
 	}
+	isOldDescPtr := func(v ssa.Value) bool { return isOldDescPtrD(v, 0) }
+	isOldDesc := func(v ssa.Value) bool { return isOldDescD(v, 0) }
 	// update: the batch parameter
 	var batch *ssa.Parameter
 	for _, p := range Up.Params {
@@ -521,10 +526,36 @@ func c14R3Updater(c *Ctx, u *c14Upd, getGen *ssa.Function) {
 		return
 	}
 	// pushed content derives from the applied list
-	derivesApplied := func(v ssa.Value) bool {
+	var derivesApplied func(v ssa.Value) bool
+	seenD := map[ssa.Value]bool{}
+	derivesApplied = func(v ssa.Value) bool {
+		if v == nil || seenD[v] {
+			return false
+		}
+		seenD[v] = true
 		for _, l := range V.LeavesShallow(v) {
-			if c14Derives(l, applied, 0) {
+			if applied[l] || c14Derives(l, applied, 0) {
 				return true
+			}
+			switch x := l.(type) {
+			case *ssa.Extract:
+				if applied[x.Tuple] || derivesApplied(x.Tuple) {
+					return true
+				}
+			case *ssa.Call:
+				for _, a := range x.Call.Args {
+					if derivesApplied(a) {
+						return true
+					}
+				}
+			case *ssa.UnOp:
+				if _, isAlloc := x.X.(*ssa.Alloc); !isAlloc && derivesApplied(x.X) {
+					return true
+				}
+			case *ssa.MakeInterface:
+				if derivesApplied(x.X) {
+					return true
+				}
 			}
 		}
 		return false
@@ -533,6 +564,7 @@ func c14R3Updater(c *Ctx, u *c14Upd, getGen *ssa.Function) {
 	for _, p := range pushes {
 		d := false
 		for _, a := range p.Common().Args {
+			seenD = map[ssa.Value]bool{}
 			if !u.isTag(a) && derivesApplied(a) {
 				d = true
 			}
